@@ -102,6 +102,24 @@ let handle (line : Stdlib.String.t) : Stdlib.String.t =
       let value = Irconv.uexpr_of (Irconv.parse_sexp f.(2)) in
       let p = Irconv.pat_of (Irconv.parse_sexp f.(3)) in
       Stdlib.String.concat "," (List.map ocaml_string (stmt_binders (expand (f.(1) = "1") p (VRoot value.u_toks))))
+  | "sem" ->
+      (* sem <caller> <units> <value> <value-uexpr> <tree>: the specification's frontier and the
+         execution of the model's expansion, on the same triple *)
+      let caller = Irconv.caller_of (Irconv.parse_sexp f.(1)) in
+      let units = Irconv.units_of (Irconv.parse_sexp f.(2)) in
+      let v = Irconv.value_of (Irconv.parse_sexp f.(3)) in
+      let vx = Irconv.uexpr_of (Irconv.parse_sexp f.(4)) in
+      let p = Irconv.pat_of (Irconv.parse_sexp f.(5)) in
+      let nodes = gen_nodes true p None in
+      let en = { e_root = v; e_bind = []; e_caller = caller; e_units = units } in
+      let fr = frontier caller units p v in
+      let ex = exec (expand true p (VRoot vx.u_toks)) en in
+      let ok = pat_ok units p in
+      Printf.sprintf "F:%s X:%s T:%s ok=%d"
+        (match fr with None -> "stuck" | Some es -> Irconv.entries_to_string nodes es)
+        (match ex with None -> "stuck" | Some (es, _) -> Irconv.entries_to_string nodes es)
+        (match ex with None -> "-" | Some (_, tr) -> Irconv.trace_to_string tr)
+        (if ok then 1 else 0)
   | c -> failwith ("unknown command " ^ c)
 
 let () =
